@@ -1,6 +1,6 @@
 from __future__ import annotations
 import typing
-from types import CodeType
+from types import CodeType, FunctionType
 
 import sympy
 from structlog import get_logger
@@ -76,9 +76,19 @@ def get_scheme(scheme: str) -> scheme_func:
             stacklevel=3,
         )
 
-    # Replace the name of the function
-    func.__code__ = func.__code__.replace(co_name=scheme)
-    return func
+    # Name the generated function after the requested scheme. Do this on a copy:
+    # rewriting ``func.__code__`` in place would rename the module level function
+    # for every later use in the same process.
+    renamed = FunctionType(
+        func.__code__.replace(co_name=scheme),
+        func.__globals__,
+        scheme,
+        func.__defaults__,
+        func.__closure__,
+    )
+    renamed.__kwdefaults__ = func.__kwdefaults__
+    renamed.__doc__ = func.__doc__
+    return typing.cast(scheme_func, renamed)
 
 
 def list_schemes() -> list[str]:
